@@ -337,7 +337,7 @@ fn function_tokenizer_params(o: &mut Out, tfidf: bool) {
         o.cnt.guard_checks += 1;
         *o.per_format.entry(fname).or_insert(0) += 1;
         // (restored fit outcome, outcome after re-supplying the function)
-        let outcome: Result<(Result<Ob, String>, Ob), String> = if tfidf {
+        let outcome: Result<(Result<Ob, String>, Ob), String> = match lvmc_core::guarded(|| if tfidf {
             f.ser(&t).and_then(|b| f.de::<TfIdfVectorizer>(&b)).map(|rt| {
                 let first = rt.fit(&docs()).map(|m| canon_tf(&m)).map_err(|e| e.to_string());
                 let again = rt.tokenizer(Tokenizer::Function(space_tokenizer));
@@ -349,6 +349,12 @@ fn function_tokenizer_params(o: &mut Out, tfidf: bool) {
                 let again = rp.tokenizer(Tokenizer::Function(space_tokenizer));
                 (first, canon_cv(&again.fit(&docs()).expect("fit after re-supplying the tokenizer")))
             })
+        }) {
+            Ok(x) => x,
+            Err(p) => {
+                o.viol("function_tokenizer.panic", fname, format!("using restored parameters with a function tokeniser panicked: {}", p));
+                continue;
+            }
         };
         match outcome {
             Err(e) => o.viol("function_tokenizer.round_trip_error", fname, format!("parameters with a function tokeniser do not survive serialisation: {}", e)),
@@ -427,7 +433,7 @@ fn cv_model(r: &mut Runner) {
             o.cnt.nontrivial += 1;
             o.cnt.guard_checks += 1;
             *o.per_format.entry(fname).or_insert(0) += 1;
-            let mut restored: CountVectorizer = match f.ser(&m).and_then(|b| f.de(&b)) {
+            let mut restored: CountVectorizer = match lvmc_core::guarded(|| f.ser(&m).and_then(|b| f.de(&b))).unwrap_or_else(|p| Err(format!("panic: {}", p))) {
                 Ok(r) => r,
                 Err(e) => {
                     o.viol("function_tokenizer.round_trip_error", fname, format!("fitted vectoriser with a function tokeniser does not survive serialisation: {}", e));
@@ -437,14 +443,18 @@ fn cv_model(r: &mut Runner) {
             if restored.vocabulary() != m.vocabulary() || restored.nentries() != m.nentries() {
                 o.viol("function_tokenizer.vocabulary_differs", fname, "vocabulary of the restored vectoriser differs".to_string());
             }
-            match restored.transform(&qdocs()) {
-                Err(e) if e.to_string() == linfa_preprocessing::PreprocessingError::TokenizerNotSet.to_string() => {}
-                Err(e) => o.viol("function_tokenizer.guard_wrong_error", fname, format!("transform before re-supplying the tokenizer failed with `{}` instead of TokenizerNotSet", e)),
-                Ok(_) => o.viol("function_tokenizer.guard_missing", fname, "the restored vectoriser transforms although its tokenizer function has not been re-supplied (documented guard: must refuse)".to_string()),
+            match lvmc_core::guarded(|| restored.transform(&qdocs()).map(|_| ())) {
+                Ok(Err(e)) if e.to_string() == linfa_preprocessing::PreprocessingError::TokenizerNotSet.to_string() => {}
+                Ok(Err(e)) => o.viol("function_tokenizer.guard_wrong_error", fname, format!("transform before re-supplying the tokenizer failed with `{}` instead of TokenizerNotSet", e)),
+                Ok(Ok(())) => o.viol("function_tokenizer.guard_missing", fname, "the restored vectoriser transforms although its tokenizer function has not been re-supplied (documented guard: must refuse)".to_string()),
+                Err(p) => o.viol("function_tokenizer.guard_panic", fname, format!("transform of the restored vectoriser panicked instead of refusing: {}", p)),
             }
             restored.force_tokenizer_function_redefinition(space_tokenizer);
             let mut ob1 = Ob::new();
-            cv_exact_obs(&mut ob1, "", &restored);
+            if let Err(p) = lvmc_core::guarded(|| cv_exact_obs(&mut ob1, "", &restored)) {
+                o.viol("function_tokenizer.panic_after_resupply", fname, format!("using the restored vectoriser after re-supplying the tokenizer panicked: {}", p));
+                continue;
+            }
             if let Some((name, what)) = ob0.diff(&ob1) {
                 o.viol(&format!("function_tokenizer.differs_after_resupply.{}", name.replace(' ', "_")), fname, what);
             }
@@ -562,21 +572,25 @@ fn tfidf_model(r: &mut Runner) {
             o.cnt.nontrivial += 1;
             o.cnt.guard_checks += 1;
             *o.per_format.entry(fname).or_insert(0) += 1;
-            let mut restored: FittedTfIdfVectorizer = match f.ser(&m).and_then(|b| f.de(&b)) {
+            let mut restored: FittedTfIdfVectorizer = match lvmc_core::guarded(|| f.ser(&m).and_then(|b| f.de(&b))).unwrap_or_else(|p| Err(format!("panic: {}", p))) {
                 Ok(r) => r,
                 Err(e) => {
                     o.viol("function_tokenizer.round_trip_error", fname, format!("fitted tf-idf vectoriser with a function tokeniser does not survive serialisation: {}", e));
                     continue;
                 }
             };
-            match restored.transform(&qdocs()) {
-                Err(e) if e.to_string() == linfa_preprocessing::PreprocessingError::TokenizerNotSet.to_string() => {}
-                Err(e) => o.viol("function_tokenizer.guard_wrong_error", fname, format!("transform before re-supplying the tokenizer failed with `{}` instead of TokenizerNotSet", e)),
-                Ok(_) => o.viol("function_tokenizer.guard_missing", fname, "the restored tf-idf vectoriser transforms although its tokenizer function has not been re-supplied".to_string()),
+            match lvmc_core::guarded(|| restored.transform(&qdocs()).map(|_| ())) {
+                Ok(Err(e)) if e.to_string() == linfa_preprocessing::PreprocessingError::TokenizerNotSet.to_string() => {}
+                Ok(Err(e)) => o.viol("function_tokenizer.guard_wrong_error", fname, format!("transform before re-supplying the tokenizer failed with `{}` instead of TokenizerNotSet", e)),
+                Ok(Ok(())) => o.viol("function_tokenizer.guard_missing", fname, "the restored tf-idf vectoriser transforms although its tokenizer function has not been re-supplied".to_string()),
+                Err(p) => o.viol("function_tokenizer.guard_panic", fname, format!("transform of the restored tf-idf vectoriser panicked instead of refusing: {}", p)),
             }
             restored.force_tokenizer_redefinition(space_tokenizer);
             let mut ob1 = Ob::new();
-            tfidf_exact_obs(&mut ob1, "", &restored);
+            if let Err(p) = lvmc_core::guarded(|| tfidf_exact_obs(&mut ob1, "", &restored)) {
+                o.viol("function_tokenizer.panic_after_resupply", fname, format!("using the restored tf-idf vectoriser after re-supplying the tokenizer panicked: {}", p));
+                continue;
+            }
             if let Some((name, what)) = ob0.diff(&ob1) {
                 o.viol(&format!("function_tokenizer.differs_after_resupply.{}", name.replace(' ', "_")), fname, what);
             }
